@@ -119,6 +119,9 @@ func (w *Worker) initOK(pkg *ssa.Package) bool {
 	if w.initPkgs[p] {
 		return true
 	}
+	if strings.HasPrefix(p, "github.com/openconfig/gribigo/proto") {
+		return false // generated protobuf code: registration only
+	}
 	return strings.HasPrefix(p, "github.com/openconfig/gribigo")
 }
 
